@@ -38,7 +38,7 @@ def gen(tier, rng):
                            rng.choice(["dict", "dict-shuffled"])))
     for i in range(6 if tier == "quick" else 40):
         sw = R.Sweep(rng, with_cases=True, max_args=3, max_vals=3)
-        sweeps.append((sw, "combo_runner" if i % 2 == 0 else "case_runner", R.STRATEGIES[7 + i % 4], False, False,
+        sweeps.append((sw, "combo_runner" if i % 2 == 0 else "case_runner", R.STRATEGIES[7 + i % 5], False, False,
                        "dict-shuffled"))
     return sweeps
 
